@@ -482,8 +482,27 @@ def judge_c07(sh, ci, case, ref, ctx):
                         if len(singles) == 1:
                             sh.count("unique_single_segment_repair")
                             if (calls[0][2], K) != singles[0][0]:
-                                keys.append("reported_range_not_the_repair@-")
-                                detail = "reported=[%d,%d) unique_repair=%s" % (calls[0][2], calls[0][4], singles[0])
+                                # One callback may stand for several `error' shifts (a secondary recovery state,
+                                # hook event 10).  The clause speaks of a repair that is unique: if a repair of
+                                # the same size with more segments -- as many as error shifts can have happened --
+                                # explains the tree too, the single-segment one is not *the* repair.
+                                other, over = False, False
+                                for m in range(2, min(6, bound) + 1):
+                                    segsets = segment_sets(n, K, m)
+                                    if space.spent + len(segsets) > space.budget:
+                                        over = True
+                                        break
+                                    if any(t in space.translations(sg) for sg in segsets):
+                                        other = True
+                                        break
+                                if other:
+                                    sh.count("single_segment_repair_not_the_only_repair")
+                                elif over or bound > 6:
+                                    sh.inconclusive += 1
+                                    sh.count("repair_uniqueness_not_decided")
+                                else:
+                                    keys.append("reported_range_not_the_repair@-")
+                                    detail = "reported=[%d,%d) unique_repair=%s" % (calls[0][2], calls[0][4], singles[0])
                 elif capped:
                     sh.inconclusive += 1
                     continue
